@@ -39,6 +39,10 @@ def case_strategy(draw):
     valid = draw(st.integers(0, 5)) > 0
     resp = draw(st.sampled_from(VALID if valid else INVALID))
     d = draw(rich.design(response=None, max_groups=1))
+    if draw(st.integers(0, 3)) == 0:
+        # the shortest right-hand sides take their own route through the `~` operator
+        body = draw(st.sampled_from(["1", "x", "0 + x", "f", "(1 | g)", "1 + x"]))
+        d = {"response": None, "intercept": "implicit", "terms": [], "groups": [], "formula": body}
     return {"response": resp, "valid": valid, "design": d, "frame": spec, "rhs_only_pred": draw(st.booleans())}
 
 
